@@ -1,6 +1,6 @@
 #!/bin/sh
 # usage: tools/validate_seed3.sh Axx k   - round-3 layout: /tmp/seeds3/Axx/k (NOTES.md line 1 "BREAKS: Cxx"), worktree /tmp/wt4/Axx
-AREA="$1"; K="$2"; WT="/tmp/wt4/$AREA"; M="/tmp/seeds3/$AREA/$K"
+AREA="$1"; K="$2"; WT="${WTROOT:-/tmp/wt4}/$AREA"; M="${SEEDROOT:-/tmp/seeds3}/$AREA/$K"
 PID=$(head -1 "$M/NOTES.md" | grep -oE "C[0-9]{2}" | head -1)
 [ -n "$PID" ] || { echo "$AREA/$K: no BREAKS line"; exit 3; }
 N=5; while [ -e "/verif/seeded/$PID-$N" ]; do N=$((N+1)); done
@@ -21,7 +21,7 @@ tail -5 /tmp/vs-mut.log > "$OUT/demo_output_with_patch.txt"
 import json, sys
 pid, area, out, tests = sys.argv[1:5]
 notes = open(f"{out}/NOTES.md").read().splitlines()
-json.dump({"property": pid, "breaks_property": pid, "round": 3, "area": area,
+json.dump({"property": pid, "breaks_property": pid, "round": int(__import__("os").environ.get("ROUND","3")), "area": area,
   "source": "independent sub-agent (third round) given the text of all 19 properties, a source AREA to change, one-line summaries of the 76 earlier changes to avoid, and a scratch worktree",
   "needs_to_manifest": " ".join(l.strip() for l in notes[1:6] if l.strip())[:400],
   "validated": {"clean_demo_exit": 0, "patched_demo_exit": 1, "tests_with_patch": tests,
